@@ -215,6 +215,12 @@ func pkgInDir(pkgName, dir string) bool {
 func parseImportsAliases(syntaxTree []*ast.File) map[string]string {
 	aliases := make(map[string]string)
 	for _, syntax := range syntaxTree {
+		// A mock file written by an earlier run is part of the package when
+		// regenerating. Its aliases are the result of conflict resolution,
+		// not the user's choice, and must not influence the new output.
+		if generatedByMoq(syntax) {
+			continue
+		}
 		for _, imprt := range syntax.Imports {
 			if imprt.Name != nil && imprt.Name.Name != "." && imprt.Name.Name != "_" {
 				aliases[strings.Trim(imprt.Path.Value, `"`)] = imprt.Name.Name
@@ -233,4 +239,13 @@ func (r Registry) numberedAlias(name string) string {
 			return alias
 		}
 	}
+}
+
+// generatedByMoq reports whether the file starts with the marker comment of
+// the moq template.
+func generatedByMoq(file *ast.File) bool {
+	if len(file.Comments) == 0 || file.Comments[0].Pos() > file.Package {
+		return false
+	}
+	return strings.HasPrefix(file.Comments[0].Text(), "Code generated by moq;")
 }
